@@ -1,16 +1,19 @@
 def nontrivial(seq):
     ops = [op.split() for op, _ in seq]
     obs = [o for _, o in seq]
-    loads = [(w, o) for w, o in zip(ops, obs) if w and w[0] in ("loadstores", "loadregions")]
+    loads = [(w, o) for w, o in zip(ops, obs) if w and w[0] in ("loadstores", "loadregions", "loadonce")]
     nonempty = any(o.startswith("ok ") and " n=0 " not in o + " " for w, o in loads)
-    changed = any(w and w[0] in ("delstore", "delregion", "flush", "close", "crash", "weight") for w in ops) or \
-        any(len(w) > (1 if w[0] == "loadstores" else 2) for w, _ in loads)
+    changed = any(w and w[0] in ("delstore", "delregion", "flush", "close", "crash", "weight", "weights", "corrupt", "race")
+                  for w in ops) or \
+        any(len(w) > (2 if w[0] == "loadregions" else 1) for w, _ in loads)
     paged = any(o.startswith("ok n=") and int(o.split()[1][2:]) >= 100 for _, o in loads)
     return nonempty and (changed or paged)
 
 
 def coverage_extra(results, vlib):
     backends, sizes, errs, pruned, halvings, stops = {}, {}, {"ok": 0, "err": 0}, 0, {}, 0
+    once = {"failed": 0, "loaded": 0, "skipped-already-loaded": 0}
+    weighted_pages, races = {}, 0
     for r in results:
         if "crash" in r:
             continue
@@ -24,6 +27,19 @@ def coverage_extra(results, vlib):
                 continue
             if w[0] == "open":
                 backends[w[1]] = backends.get(w[1], 0) + 1
+            elif w[0] == "weights":
+                n = int(w[1])
+                b = "1-50" if n <= 50 else "51-100" if n <= 100 else ">100"
+                weighted_pages[b] = weighted_pages.get(b, 0) + 1
+            elif w[0] == "race":
+                races += 1
+            elif w[0] == "loadonce":
+                if not obs.startswith("ok"):
+                    once["failed"] += 1
+                elif " n=0 " in obs and " kn=0 " not in obs:
+                    once["skipped-already-loaded"] += 1
+                else:
+                    once["loaded"] += 1
             elif w[0] in ("loadstores", "loadregions"):
                 pat = w[-1] if w[-1].strip("01") == "" and w[-1] else ""
                 k = str(pat.count("1"))
@@ -43,7 +59,8 @@ def coverage_extra(results, vlib):
             elif w[0] == "crash":
                 stops += 1
     return {"backends": backends, "load_sizes": sizes, "load_results": errs, "failing_loadrange_calls_per_load": halvings,
-            "prune_loads_that_removed_leftovers": pruned, "process_stops": stops}
+            "prune_loads_that_removed_leftovers": pruned, "process_stops": stops, "load_regions_once": once,
+            "bulk_weight_sets": weighted_pages, "gated_delete_vs_flush_schedules": races}
 
 
 SPEC = {
@@ -68,7 +85,11 @@ SPEC = {
             "those halvings, then deletes/overwrites and plain or pruning loads under random patterns (0-7 failures); (c) "
             "pruning/histories: overlapping, stale and duplicate-range leftovers on a 10-key grid with versions 1-5, "
             "save/delete/flush/close/process-stop histories on the real RegionStorage (also right at its batch boundary "
-            "98-101 saves), plain and pruning loads, single loads. Foreign keys are planted around both namespaces. "
+            "98-101 saves), plain and pruning loads, single loads; (d) LoadRegionsOnce on one Storage object with a fresh cache "
+            "per call: unreadable records planted below core.Storage make loads fail part-way, the record is rewritten or "
+            "deleted, the call is retried, repeated after success, close/stop in between; (e) gated schedule on a leveldb whose "
+            "journal writes can be parked: DeleteRegion of a pending region parked inside its leveldb delete, Flush started, "
+            "delete released. Store sets also get 51-100+ explicitly saved weights inside one page (2 weight keys per store). Foreign keys are planted around both namespaces. "
             "non-trivial = a non-empty successful full load plus a delete/flush/close/stop/weight/error pattern or >= 100 "
             "items; distinct = distinct op sequence",
     "model_text": "PdModel/Model/PadKey.lean (%020d keys, byte order), PdModel/Model/StorageLoad.lean (LoadRange, the loops of "
@@ -95,7 +116,8 @@ SPEC = {
                   "to 2500). Modelled rather than verified: strconv float formatting/parsing of the weights (bit patterns are "
                   "compared on the implementation side), protobuf encodings, the three kv backends' own range scans (compared, not "
                   "proved), the time-based background flush (thorough tier only), failures of Save/Remove/Load (only LoadRange "
-                  "failures are injected). The region-backend theorems speak about the tree with fixes/F7b-*.diff applied; the "
+                  "failures and unreadable region records are injected); concurrency inside RegionStorage is covered by one gated "
+                  "schedule (delete parked in leveldb vs flush) and the extracted lock/order facts, not by a model of interleavings. The region-backend theorems speak about the tree with fixes/F7b-*.diff applied; the "
                   "pre-repair behaviour is proved wrong on a witness (delete_then_flush_unfixed_counterexample) that is replayed "
                   "from corpus/C17 on every run.",
     "technique": "Lean 4 induction over pages/error patterns/histories + differential correspondence on the real "
